@@ -81,6 +81,30 @@ def fam_shared_lazy_variable(xs, ys, k, shared):
     return [q0, q1], [mk0, mk1], lambda r: (index_of(xs, r),)
 
 
+def fam_shared_attribute_two_roles(xs, ys, k, shared):
+    """one attribute expression object used on its own as a condition in one query and as an operand in another"""
+    x = let(P, xs, name="x")
+    d = x.a
+    q0 = an(entity(x, d))
+    q1 = an(entity(x, d == k[0]))
+    def mk0():
+        x_ = let(P, xs, name="x"); return an(entity(x_, x_.a))
+    def mk1():
+        x_ = let(P, xs, name="x"); return an(entity(x_, x_.a == k[0]))
+    return [q0, q1], [mk0, mk1], lambda r: (index_of(xs, r),)
+
+
+def fam_empty_domain(xs, ys, k, shared):
+    """a variable whose domain is empty, evaluated more than once"""
+    def mk():
+        x = let(P, (p for p in xs[:0]), name="x"); y = let(P, ys, name="y")
+        return an(set_of([x, y], x.a < y.a))
+    q = mk()
+    def norm(r):
+        return tuple(index_of(xs + ys, v.value if hasattr(v, "value") else v) for v in r.data.values())
+    return [q, q], [mk, mk], norm
+
+
 def fam_shared_subexpression(xs, ys, k, shared):
     x = let(P, xs, name="x")
     c = x.a > k[0]
@@ -152,6 +176,8 @@ FAMILIES = {
     "two-queries-sharing-a-variable": fam_shared_variable,
     "two-queries-sharing-a-lazily-produced-domain": fam_shared_lazy_variable,
     "two-queries-sharing-a-subexpression": fam_shared_subexpression,
+    "two-queries-sharing-an-attribute-node-in-two-roles": fam_shared_attribute_two_roles,
+    "query-over-an-empty-domain-twice": fam_empty_domain,
     "exists-query-twice": fam_exists,
     "forall-query-twice": fam_forall,
     "the-then-an-on-one-variable": fam_the_then_an,
@@ -365,7 +391,7 @@ def cases(tier, seed):
 def describe(tier):
     L = 4 if tier == "quick" else 6
     return dict(
-        rule="scenario family (one query twice; two-variable query; two queries sharing a variable; sharing a variable whose domain is a generator; sharing a sub-expression; exists; for_all; the() then an(); "
+        rule="scenario family (one query twice; two-variable query; two queries sharing a variable; sharing a variable whose domain is a generator; sharing a sub-expression; sharing one attribute node used as a condition in one and as an operand in the other; a query over an empty (generator) domain evaluated twice; exists; for_all; the() then an(); "
         "rule query; rule query with refinement; plus a suspended evaluation over a domain-less variable while the program creates / another evaluation infers instances of its type) x mode (sequential 0,1,0; evaluation 1 nested inside every step of evaluation 0; a symbolic schedule of <= %d "
         "steps over start(q_i) / next(it_j) / drain(it_j) (consume the rest) / abandon(it_j) with <= 3 iterators); attribute values symbolic; the reference for every evaluation is the result of "
         "a fresh, structurally identical query over the same objects run alone; non-trivial = >= 2 feasible paths and some output" % L,
